@@ -257,4 +257,231 @@ theorem invOpenFrom_cons_open (keep : Int → Int → Bool) (s c : Int) (a : Edg
   simp only [InvOpenFrom, contrib_open _ a ha, Int.add_zero, ha]
   simp
 
+/-! ### erasing the open edges commutes with the operations -/
+
+/-- the closed edges of an AEL, in order -/
+def closedPart (l : Ael) : Ael := l.filter (fun e => !e.isOpen)
+
+/-- position among the closed edges of the first closed edge at or after position `i` -/
+def cidx (l : Ael) (i : Nat) : Nat := (closedPart (l.take i)).length
+
+theorem closedPart_append (l1 l2 : Ael) : closedPart (l1 ++ l2) = closedPart l1 ++ closedPart l2 := by
+  simp [closedPart]
+
+theorem closedPart_cons_closed (e : Edge) (l : Ael) (h : e.isOpen = false) :
+    closedPart (e :: l) = e :: closedPart l := by simp [closedPart, h]
+
+theorem closedPart_cons_open (e : Edge) (l : Ael) (h : e.isOpen = true) :
+    closedPart (e :: l) = closedPart l := by simp [closedPart, h]
+
+theorem closedPart_take (l : Ael) (i : Nat) : (closedPart l).take (cidx l i) = closedPart (l.take i) := by
+  conv => lhs; rw [← List.take_append_drop i l, closedPart_append]
+  simp [cidx]
+
+theorem closedPart_drop (l : Ael) (i : Nat) : (closedPart l).drop (cidx l i) = closedPart (l.drop i) := by
+  conv => lhs; rw [← List.take_append_drop i l, closedPart_append]
+  simp [cidx]
+
+theorem cidx_le (l : Ael) (i : Nat) : cidx l i ≤ (closedPart l).length := by
+  conv => rhs; rw [← List.take_append_drop i l, closedPart_append]
+  simp [cidx]
+
+theorem findPrev_closedPart (t : PathType) (rp : List Edge) :
+    findPrev t (closedPart rp) = ((findPrev t rp).1, closedPart (findPrev t rp).2) := by
+  induction rp with
+  | nil => simp [findPrev, closedPart]
+  | cons x xs ih =>
+    cases ho : x.isOpen
+    · rw [closedPart_cons_closed x xs ho]
+      simp only [findPrev]
+      by_cases hc : x.pt = t ∧ x.isOpen = false
+      · simp [hc, closedPart]
+      · simp only [if_neg hc, ih, closedPart_append, closedPart_cons_closed x [] ho]
+        simp [closedPart]
+    · rw [closedPart_cons_open x xs ho, ih]
+      have hc : ¬(x.pt = t ∧ x.isOpen = false) := by simp [ho]
+      simp only [findPrev, if_neg hc, closedPart_append, closedPart_cons_open x [] ho]
+      simp [closedPart]
+
+theorem wc2Loop_closedPart (fr : FillRule) (t : PathType) (l : List Edge) : ∀ (w : Int),
+    wc2Loop fr t (closedPart l) w = wc2Loop fr t l w := by
+  induction l with
+  | nil => intro w; rfl
+  | cons x xs ih =>
+    intro w
+    cases ho : x.isOpen
+    · rw [closedPart_cons_closed x xs ho]; simp only [wc2Loop, ih]
+    · rw [closedPart_cons_open x xs ho, ih]
+      have hc : ¬(x.pt ≠ t ∧ x.isOpen = false) := by simp [ho]
+      simp only [wc2Loop, if_neg hc]
+
+theorem closedPart_reverse (l : Ael) : closedPart l.reverse = (closedPart l).reverse := by
+  simp [closedPart, List.filter_reverse]
+
+/-- `SetWindCountForClosedPathEdge` does not see open edges -/
+theorem setWindClosed_closedPart (fr : FillRule) (left : List Edge) (e : Edge) :
+    setWindClosed fr (closedPart left) e = setWindClosed fr left e := by
+  simp only [setWindClosed]
+  rw [← closedPart_reverse, findPrev_closedPart]
+  rcases findPrev e.pt left.reverse with ⟨_ | e2, btw⟩ <;> simp only [wc2Loop_closedPart]
+
+theorem newLeft_closedPart (cfg : Cfg) (left : List Edge) (pt : PathType) (dx : Int) :
+    newLeft cfg (closedPart left) pt false dx = newLeft cfg left pt false dx := by
+  simp only [newLeft, Bool.false_eq_true, ite_false, setWindClosed_closedPart]
+
+/-- what an operation looks like once the open edges are erased (`none`: it disappears) -/
+def projOp (l : Ael) : Op → Option Op
+  | .insertPair pos pt false dx => some (.insertPair (cidx l pos) pt false dx)
+  | .insertPair _ _ true _ => none
+  | .insertOne _ _ _ => none
+  | .intersect i =>
+    match l.drop i with
+    | e1 :: e2 :: _ => if e1.isOpen || e2.isOpen then none else some (.intersect (cidx l i))
+    | _ => none
+  | .removePair i =>
+    match l.drop i with
+    | e1 :: _ => if e1.isOpen then none else some (.removePair (cidx l i))
+    | _ => none
+  | .removeOne _ => none
+
+theorem step_closedPart (cfg : Cfg) (l l' : Ael) (op : Op) (hs : step cfg l op = some l') :
+    match projOp l op with
+    | none => closedPart l' = closedPart l
+    | some op' => step cfg (closedPart l) op' = some (closedPart l') := by
+  cases op with
+  | insertPair pos pt o dxLeft =>
+    simp only [step, insertPair] at hs
+    split at hs
+    case isFalse => cases hs
+    case isTrue hc =>
+      simp only [Option.some.injEq] at hs; subst hs
+      obtain ⟨g1, g2, g3⟩ := newLeft_fields cfg (l.take pos) pt o dxLeft
+      cases o
+      · simp only [projOp, step, insertPair]
+        rw [if_pos ⟨cidx_le l pos, hc.2⟩, closedPart_take, closedPart_drop, newLeft_closedPart]
+        simp only [closedPart_append]
+        rw [closedPart_cons_closed _ _ (by exact g2), closedPart_cons_closed _ _ (by rfl)]
+      · simp only [projOp]
+        conv => rhs; rw [← List.take_append_drop pos l]
+        simp only [closedPart_append]
+        rw [closedPart_cons_open _ _ (by exact g2), closedPart_cons_open _ _ (by rfl)]
+  | insertOne pos pt dx =>
+    simp only [step, insertOne] at hs
+    split at hs
+    case isFalse => cases hs
+    case isTrue hc =>
+      simp only [Option.some.injEq] at hs; subst hs
+      obtain ⟨g1, g2, g3⟩ := newLeft_fields cfg (l.take pos) pt true dx
+      simp only [projOp]
+      conv => rhs; rw [← List.take_append_drop pos l]
+      simp only [closedPart_append]
+      rw [closedPart_cons_open _ _ (by exact g2)]
+  | intersect i =>
+    simp only [step, intersect] at hs
+    split at hs
+    next e1 e2 rest hd =>
+      simp only [Option.some.injEq] at hs; subst hs
+      obtain ⟨f1, f2, f3, f4, f5, f6⟩ := intersectPair_fields cfg e1 e2
+      simp only [projOp, hd]
+      cases ho1 : e1.isOpen <;> cases ho2 : e2.isOpen
+      · -- both closed: the same intersect among the closed edges
+        simp only [Bool.or_self, Bool.false_eq_true, ite_false, step, intersect]
+        rw [closedPart_drop, hd, closedPart_cons_closed _ _ ho1, closedPart_cons_closed _ _ ho2]
+        simp only [closedPart_take, closedPart_append]
+        rw [closedPart_cons_closed _ _ (by rw [f5]; exact ho2), closedPart_cons_closed _ _ (by rw [f2]; exact ho1)]
+      all_goals
+        simp only [Bool.or_true, Bool.true_or, ite_true]
+        conv => rhs; rw [drop_split l i _ hd]
+        simp only [closedPart_append]
+        congr 1
+      · have hp : intersectPair cfg e1 e2 = (e1, intersectOpen cfg e2 e1) := by simp [intersectPair, ho1, ho2]
+        rw [hp]; simp only
+        rw [closedPart_cons_open _ _ (by rw [intersectOpen_isOpen]; exact ho2), closedPart_cons_closed _ _ ho1,
+          closedPart_cons_closed _ _ ho1, closedPart_cons_open _ _ ho2]
+      · have hp : intersectPair cfg e1 e2 = (intersectOpen cfg e1 e2, e2) := by simp [intersectPair, ho1, ho2]
+        rw [hp]; simp only
+        rw [closedPart_cons_closed _ _ ho2, closedPart_cons_open _ _ (by rw [intersectOpen_isOpen]; exact ho1),
+          closedPart_cons_open _ _ ho1, closedPart_cons_closed _ _ ho2]
+      · have hp : intersectPair cfg e1 e2 = (e1, e2) := by simp [intersectPair, ho1, ho2]
+        rw [hp]; simp only
+        rw [closedPart_cons_open _ _ ho2, closedPart_cons_open _ _ ho1, closedPart_cons_open _ _ ho1,
+          closedPart_cons_open _ _ ho2]
+    next => cases hs
+  | removePair i =>
+    simp only [step, removePair] at hs
+    split at hs
+    next e1 e2 rest hd =>
+      split at hs
+      case isFalse => cases hs
+      case isTrue hc =>
+        simp only [Option.some.injEq] at hs; subst hs
+        simp only [projOp, hd]
+        cases ho1 : e1.isOpen
+        · have ho2 : e2.isOpen = false := by rw [← hc.2.1]; exact ho1
+          simp only [Bool.false_eq_true, ite_false, step, removePair]
+          rw [closedPart_drop, hd, closedPart_cons_closed _ _ ho1, closedPart_cons_closed _ _ ho2]
+          simp only [if_pos hc, closedPart_take, closedPart_append]
+        · have ho2 : e2.isOpen = true := by rw [← hc.2.1]; exact ho1
+          simp only [ite_true]
+          conv => rhs; rw [drop_split l i _ hd]
+          simp only [closedPart_append]
+          rw [closedPart_cons_open _ _ ho1, closedPart_cons_open _ _ ho2]
+    next => cases hs
+  | removeOne i =>
+    simp only [step, removeOne] at hs
+    split at hs
+    next e rest hd =>
+      split at hs
+      case isFalse => cases hs
+      case isTrue hc =>
+        simp only [Option.some.injEq] at hs; subst hs
+        simp only [projOp]
+        conv => rhs; rw [drop_split l i _ hd]
+        simp only [closedPart_append]
+        rw [closedPart_cons_open _ _ hc]
+    next => cases hs
+
+/-- the operation list of a run with the open edges erased -/
+def projOps (cfg : Cfg) : Ael → List Op → List Op
+  | _, [] => []
+  | l, op :: ops =>
+    match step cfg l op with
+    | none => []
+    | some l' => (projOp l op).toList ++ projOps cfg l' ops
+
+theorem run_append (cfg : Cfg) (ops1 ops2 : List Op) : ∀ (l : Ael),
+    run cfg l (ops1 ++ ops2) = (run cfg l ops1).bind (fun l1 => run cfg l1 ops2) := by
+  induction ops1 with
+  | nil => intro l; rfl
+  | cons op ops ih =>
+    intro l
+    simp only [List.cons_append, run]
+    cases step cfg l op with
+    | none => rfl
+    | some l1 => exact ih l1
+
+theorem run_closedPart (cfg : Cfg) (ops : List Op) : ∀ (l l' : Ael), run cfg l ops = some l' →
+    run cfg (closedPart l) (projOps cfg l ops) = some (closedPart l') := by
+  induction ops with
+  | nil => intro l l' hr; simp only [run, Option.some.injEq] at hr; subst hr; rfl
+  | cons op ops ih =>
+    intro l l' hr
+    simp only [run] at hr
+    cases hs : step cfg l op with
+    | none => rw [hs] at hr; cases hr
+    | some l1 =>
+      rw [hs] at hr
+      simp only [projOps, hs]
+      have h1 := step_closedPart cfg l l1 op hs
+      have h2 := ih l1 l' hr
+      cases hp : projOp l op with
+      | none =>
+        rw [hp] at h1; simp only at h1
+        simp only [Option.toList, List.nil_append]
+        rw [← h1]; exact h2
+      | some op' =>
+        rw [hp] at h1; simp only at h1
+        simp only [Option.toList, List.cons_append, List.nil_append, run, h1]
+        exact h2
+
 end Clipper.Model
